@@ -2,6 +2,15 @@
 
 
 def classify(case):
+    """the one recorded class: in every restart of the case the restart run and the baseline run (same history without the
+    restart) end with the same statuses except for tasks that were persisted in Abort at the crash point (their do handler was
+    still running when their lane was aborted), every other clause of the monitor holds, and at least one such task differs.
+    The driver evaluates the clauses itself (observed.restarts[].class); anything else - a finished task run again, a lost
+    task, a difference at a task that was not in Abort - is not keyed and stays a VIOLATION"""
+    rs = (case.get("observed") or {}).get("restarts") or []
+    classes = [r.get("class") for r in rs]
+    if classes and all(c in ("same", "abort-only") for c in classes) and "abort-only" in classes:
+        return "restart-with-task-in-abort"
     return None
 
 
@@ -9,30 +18,36 @@ SPEC = dict(
     prop="C04",
     drivers=[
         dict(name="restart", kind="test", pkg="./overlord/state", run="TestVerifC04Restart",
-             n=dict(quick=30, thorough=600), timeout=dict(quick=300, thorough=1800),
+             n=dict(quick=50, thorough=1500), timeout=dict(quick=300, thorough=1800),
              ev=dict(requires=["V.models.Restart"], case_type="Restart.case",
                      mismatch="Restart.mismatch", monitor="Restart.monitor_fail")),
     ],
     classify=classify,
-    rule=("changes of 1-5 tasks forming a chain (task j waits for task j-1) with random extra edges to earlier tasks, a "
-          "random set of failing do handlers (2 cases of 3 have at least one) and of tasks without undo handler, run through "
-          "the real state.TaskRunner with deterministic handlers that modify the state themselves (so there are checkpoints "
-          "while a task is Doing/Undoing); the driver's Backend keeps EVERY checkpoint payload; for every second payload "
-          "(quick; every payload in thorough) and the last one: state.ReadState, a fresh TaskRunner with the same handlers, "
-          "run to quiescence. Compared with the model: final statuses without restart; per restart the final statuses and "
-          "the number of do/undo handler starts after the restart. Monitored: same final statuses as without restart, same "
-          "task ids, no do start for a task whose payload status is past Doing, no undo start for Undone/Hold/Error, at "
-          "least one start for a task persisted as Doing/Undoing. Non-trivial = some restart caught a task in Doing or Undoing."),
+    rule=("case 0: the scripted witness of the recorded class (two parallel failing tasks, crash after the first has failed). "
+          "Then alternately chains (task j waits for task j-1, random extra edges, 1-5 tasks) and general DAGs in the default lane "
+          "(2-4 tasks, each edge to an earlier task with probability 2/5, so independent tasks run in parallel); a random set "
+          "of failing do handlers (2 cases of 3) and of tasks without undo handler. The change runs through the real "
+          "state.TaskRunner; every handler modifies the state (checkpoint while Doing/Undoing) and then blocks on a gate, so the "
+          "driver decides the schedule: E = Ensure passes until nothing more starts or changes, F id = that handler returns "
+          "(the driver waits for the runner's bookkeeping); policy: E, then release the running handlers oldest start first, "
+          "repeat. The Backend keeps every checkpoint payload. EVERY action boundary is a crash point j: restart run = "
+          "ReadState(last payload) + fresh runner + same policy; baseline run = a fresh state on which actions 1..j are "
+          "replayed, then the same policy (the run without restart in which an Ensure happens at that moment). Compared with "
+          "the model: final statuses, statuses at each crash point, final statuses of restart and baseline runs, handler "
+          "start counts after the restart. Monitored: restart final = baseline final, same task ids, no do start for a "
+          "task past Doing in the payload, no undo start for Undone/Hold/Error, at least one start for a task persisted "
+          "Doing/Undoing. Non-trivial = some restart caught a task in Doing or Undoing."),
     exhaustive=dict(quick=False, thorough=False),
     trusted_base=[
         "hand-written compact model coq/models/Restart.v of TaskRunner.Ensure/run/mustWait/tryUndo and Change.AbortLanes for a single lane (overlord/state/taskrunner.go, change.go), tied by the differential run (harness/overlay/overlord/state/zz_verif_c04_test.go)",
-        "goroutine scheduling is modelled by the event list; the driver only produces schedule-deterministic graphs (chains)",
+        "goroutine scheduling is modelled by the event list; the driver makes the real runner deterministic by gating every handler (it never lets two completions race inside the runner)",
         "persist/reload is the identity on the task list in this model; the codec itself is C05's subject",
     ],
     assumptions=[
-        "PARTIAL: same-outcome is proved on a complete finite domain only (chains of <= 3 tasks, all 64 handler configurations, every crash point of the deterministic schedule) and monitored beyond it; never-after-done, no-loss-no-dup and status monotonicity are proved for every graph, configuration and event list",
-        "handlers are deterministic functions of the task (idempotence hypothesis of the property); no Retry/Wait outcomes; one change; all tasks in the default lane",
-        "a crash point is a completed checkpoint (a crash inside Checkpoint is C06)",
-        "same-outcome is false for parallel tasks caught in Abort by the restart (C04_same_outcome_parallel_refuted): such a task is undone, not run again; this is the runner's documented in-flight semantics, not recorded as a defect",
+        "same-outcome (C04_same_outcome) is proved for every graph, configuration and continuation under the guard that no RUNNING task is in Abort at the restart point, against the baseline 'the same run without restart in which an Ensure pass happens at that moment'; without the guard it is false of the model and of the real runner (C04_same_outcome_parallel_refuted; KNOWN_FINDINGS restart-with-task-in-abort)",
+        "that in every reachable state a running handler belongs to a task in Doing, Undoing or Abort (so that the guard reads 'not Abort') is not proved; the hypothesis of the theorem says Doing or Undoing explicitly",
+        "handlers are deterministic functions of the task (idempotence hypothesis of the property); no Retry/Wait outcomes; one change; all tasks in the default lane (lanes are not modelled: the abort of a lane is the abort of the change)",
+        "a crash point is a completed checkpoint at an action boundary (a crash inside Checkpoint is C06)",
+        "never-after-done, no-loss-no-dup and status monotonicity are proved for every graph, configuration and event list; 'a task persisted as Doing/Undoing is started again' is monitored, not proved",
     ],
 )
